@@ -58,6 +58,10 @@ type Runner struct {
 	U           *model.Universe
 	ObsOps      []prog.Op
 
+	// Alt is the second acceptable state after a transaction whose outcome is
+	// in doubt (injected sync error after a complete write): S+T, while M stays S.
+	Alt *model.State
+
 	Viol   []Violation
 	Trace  []StepTrace
 	Dead   bool // the DB object is unusable (after a panic that may have left the lock held)
@@ -182,8 +186,23 @@ func (r *Runner) observeAndJudge(stepID int, where string) {
 		return
 	}
 	if err := r.M.CheckObservation(r.ObsOps, got, r.W.Clock.Unix()); err != nil {
+		if r.Alt != nil {
+			if err2 := r.Alt.CheckObservation(r.ObsOps, got, r.W.Clock.Unix()); err2 == nil {
+				r.W.Stats.Probes["in-doubt-tx-visible"]++
+				return
+			}
+		}
 		r.viol("observe", stepID, -1, where, "%s: %v", where, err)
 	}
+}
+
+func (r *Runner) syncFaultInStep(id int) bool {
+	for _, f := range r.W.Faults.Fired {
+		if f.StepID == id && (f.Kind == "syncfail-durable" || f.Kind == "syncfail-lost") {
+			return true
+		}
+	}
+	return false
 }
 
 func hasBig(ops []prog.Op) bool {
@@ -246,7 +265,9 @@ func (r *Runner) txStep(st *prog.Step, tr *StepTrace) {
 	writable := st.K == prog.STx
 	mtx := r.M.Begin(r.Opt.Deferred)
 	tr.Res = make([]prog.Res, 0, len(st.Ops))
+	var handle *nutsdb.Tx
 	body := func(tx *nutsdb.Tx) error {
+		handle = tx
 		for i, op := range st.Ops {
 			now := r.W.Clock.Unix()
 			got := Do(tx, op)
@@ -259,6 +280,10 @@ func (r *Runner) txStep(st *prog.Step, tr *StepTrace) {
 				continue
 			}
 			if err := mtx.Step(op, now, got, writable); err != nil {
+				if r.Alt != nil && !writable && r.Alt.Eval(op, now).Check(got) == nil {
+					// explained by the other admissible outcome of an in-doubt transaction
+					continue
+				}
 				r.viol("op", st.ID, i, op.K, "%s %v", op.String(), err)
 			}
 		}
@@ -299,6 +324,27 @@ func (r *Runner) txStep(st *prog.Step, tr *StepTrace) {
 		r.Dead = true
 		tr.Err = "panic: " + pan
 		return
+	}
+	if len(st.After) > 0 && handle != nil {
+		for i, op := range st.After {
+			got := Do(handle, op)
+			if got.Panic != "" {
+				r.viol("panic", st.ID, 1000+i, op.K, "%s on a finished transaction panicked: %s", op.String(), got.Panic)
+			} else if !got.Err {
+				r.viol("after-closed", st.ID, 1000+i, op.K, "%s on a finished transaction returned %s instead of an error", op.String(), got.String())
+			}
+		}
+		var e2, e3 error
+		if p := Safe(func() { e2 = handle.Commit(); e3 = handle.Rollback() }); p != "" {
+			r.viol("panic", st.ID, 2000, "Commit", "Commit/Rollback on a finished transaction panicked: %s", p)
+			r.Dead = true
+		} else if e2 == nil || e3 == nil {
+			r.viol("after-closed", st.ID, 2000, "Commit", "Commit/Rollback on a finished transaction returned nil")
+		}
+	}
+	if err != nil && err != errFn && writable && r.syncFaultInStep(st.ID) {
+		// outcome in doubt: all-or-nothing, in the process and after reopen
+		r.Alt = mtx.Commit()
 	}
 	if err != nil {
 		tr.Err = err.Error()
